@@ -794,15 +794,15 @@ void gv::generate(const std::string& tier, uint64_t seed) {
     double fl = r.pick(std::vector<double>{1 / 298.257223563, 1 / 298.257222101, 0.001, 1 / 150.0}); int flmode = r.irange(0, 2);
     double lat = r.irange(0, 7) ? r.range(-90, 90) : r.pick(lats), lon = r.irange(0, 7) ? r.range(-180, 180) : r.pick(lons), h = r.irange(0, 1) ? r.range(-5000, 400000) : 0.0;
     int Nmax = -1, Mmax = -1; if (r.irange(0, 3) == 0) { Nmax = r.irange(0, N + 1); Mmax = r.irange(0, 2) ? -1 : r.irange(0, Nmax); } else if (r.irange(0, 9) == 0) { Mmax = r.irange(0, N); }
-    run("gacc", {std::to_string(r.next() % 1000000007ULL), std::to_string(r.irange(0, 3) ? 0 : 1), std::to_string(N), std::to_string(M), hx(dgm), hx(fl), std::to_string(flmode), hx(lat), hx(lon), hx(h), std::to_string(Nmax), std::to_string(Mmax)});
-    stratum(std::string("gacc") + (h == 0 ? "-h0" : "") + (flmode == 2 ? "-J2" : flmode == 1 ? "-fraction" : "") + (Nmax >= 0 || Mmax >= 0 ? "-trunc" : ""));
+    run("gvacc", {std::to_string(r.next() % 1000000007ULL), std::to_string(r.irange(0, 3) ? 0 : 1), std::to_string(N), std::to_string(M), hx(dgm), hx(fl), std::to_string(flmode), hx(lat), hx(lon), hx(h), std::to_string(Nmax), std::to_string(Mmax)});
+    stratum(std::string("gvacc") + (h == 0 ? "-h0" : "") + (flmode == 2 ? "-J2" : flmode == 1 ? "-fraction" : "") + (Nmax >= 0 || Mmax >= 0 ? "-trunc" : ""));
   }
   for (int i = 0, n = th ? 3000 : 250; i < n; ++i) {
     int nmod = r.irange(0, 1) ? 1 : r.irange(2, 4), ncon = r.irange(0, 2) == 0, N = r.irange(1, 10), M = r.irange(0, 3) ? N : r.irange(0, N);
     double t = r.range(1890, 2060), lat = r.irange(0, 7) ? r.range(-90, 90) : r.pick(lats), lon = r.irange(0, 7) ? r.range(-180, 180) : r.pick(lons), h = r.irange(0, 3) ? r.range(-1000, 850000) : 0.0;
     int Nmax = -1, Mmax = -1; if (r.irange(0, 3) == 0) { Nmax = r.irange(0, N + 1); Mmax = r.irange(0, 2) ? -1 : r.irange(0, Nmax); }
-    run("macc", {std::to_string(r.next() % 1000000007ULL), std::to_string(r.irange(0, 3) ? 1 : 0), std::to_string(nmod), std::to_string(ncon), std::to_string(N), std::to_string(M), hx(t), hx(lat), hx(lon), hx(h), std::to_string(Nmax), std::to_string(Mmax)});
-    stratum("macc-models" + std::to_string(nmod) + (ncon ? "-const" : ""));
+    run("mgacc", {std::to_string(r.next() % 1000000007ULL), std::to_string(r.irange(0, 3) ? 1 : 0), std::to_string(nmod), std::to_string(ncon), std::to_string(N), std::to_string(M), hx(t), hx(lat), hx(lon), hx(h), std::to_string(Nmax), std::to_string(Mmax)});
+    stratum("mgacc-models" + std::to_string(nmod) + (ncon ? "-const" : ""));
   }
   // FieldComponents: generic fields, the documented degenerate cases H = 0 and F = 0, axis-aligned fields, extreme magnitudes
   for (int i = 0, n = th ? 40000 : 3000; i < n; ++i) {
@@ -823,6 +823,7 @@ void gv::generate(const std::string& tier, uint64_t seed) {
   }
   // file lookup, metadata variations, readcoeffs
   if (first) {
+    for (int caps = 0; caps < 64; ++caps) for (int hz = 0; hz < 2; ++hz) { run("gcaps", {std::to_string(caps), std::to_string(hz)}); stratum("gcaps-exhaustive"); }
     for (int kind = 0; kind < 2; ++kind) for (int sp = 0; sp < 3; ++sp) for (int da = 0; da < 3; ++da) for (int nm = 0; nm < 3; ++nm) { run("paths", {std::to_string(kind), std::to_string(sp), std::to_string(da), std::to_string(nm)}); stratum("paths"); }
     for (int kind = 0; kind < 2; ++kind) for (int v : {0, 1, 2, 3, 4, 5, 6, 10, 11, 12, 13, 14, 15, 16, 17, 18, 19, 20, 21, 22, 23, 30, 31, 32, 33, 34, 35, 36, 37, 38, 39, 40}) { run("modelerr", {std::to_string(kind), std::to_string(v)}); stratum(v < 10 || v == 37 || v == 38 ? "modelerr-harmless" : "modelerr-violation"); }
     int Nex = th ? 6 : 4;
